@@ -1,13 +1,13 @@
 import OhkamiModel.M.Shutdown
 namespace Ohkami.Shutdown2
 
-theorem lost_wakeup_in_old_code : (reach false 16 [init]).any (lost false) = true := by decide
-theorem no_lost_in_enumeration : (reach true 16 [init]).all (fun s => !lost true s) = true := by decide
-theorem reach_closed_fixed : closed true (reach true 16 [init]) = true := by decide
-theorem init_in : (reach true 16 [init]).contains init = true := by decide
+theorem lost_wakeup_in_old_code : (reach false true 24 [init]).any (lost false true) = true := by decide +kernel
+theorem no_lost_in_enumeration : (reach true true 24 [init]).all (fun s => !lost true true s) = true := by decide +kernel
+theorem reach_closed_fixed : closed true true (reach true true 24 [init]) = true := by decide +kernel
+theorem init_in : (reach true true 24 [init]).contains init = true := by decide +kernel
 
-/-- every state reachable under *any* interleaving of handler, poller and reactor steps is in the enumerated set -/
-theorem reachable_in (s : St) (h : Reachable true s) : (reach true 16 [init]).contains s = true := by
+/-- every state reachable under *any* interleaving of handler, poller and reactor steps and arriving connections is in the enumerated set -/
+theorem reachable_in (s : St) (h : Reachable true true s) : (reach true true 24 [init]).contains s = true := by
   induction h with
   | init => exact init_in
   | step s s' w _ hst ih =>
@@ -17,16 +17,43 @@ theorem reachable_in (s : St) (h : Reachable true s) : (reach true 16 [init]).co
     have hs := hc s (by simpa using ih)
     rw [List.all_eq_true] at hs
     cases w with
-    | handler => have := hs (step true s .handler) (by simp); rw [hst] at this; exact this
-    | poller => have := hs (step true s .poller) (by simp); rw [hst] at this; exact this
-    | reactor => have := hs (step true s .reactor) (by simp); rw [hst] at this; exact this
+    | handler => have := hs (step true true s .handler) (by simp); rw [hst] at this; exact this
+    | poller => have := hs (step true true s .poller) (by simp); rw [hst] at this; exact this
+    | reactor => have := hs (step true true s .reactor) (by simp); rw [hst] at this; exact this
+    | arrive => have := hs (step true true s .arrive) (by simp); rw [hst] at this; exact this
 
-theorem no_lost_wakeup (s : St) (h : Reachable true s) : lost true s = false := by
+theorem no_lost_wakeup (s : St) (h : Reachable true true s) : lost true true s = false := by
   have hin := reachable_in s h
   have hall := no_lost_in_enumeration
   rw [List.all_eq_true] at hall
   have := hall s (by simpa using hin)
   simpa using this
+
+/-- under load: once the handler has run, the loop returns within three of its own steps whatever arrives meanwhile -/
+theorem returns_under_load_enum : (reach true true 24 [init]).all (fun s =>
+    s.hpc != .hDone || (patterns 3).all fun p => (runLoad true true s p).ppc == .returnedNone) = true := by decide +kernel
+
+theorem returns_under_load (s : St) (h : Reachable true true s) (hd : s.hpc = .hDone) (p : List Bool) (hp : p ∈ patterns 3) :
+    (runLoad true true s p).ppc = .returnedNone := by
+  have hin := reachable_in s h
+  have hall := returns_under_load_enum
+  rw [List.all_eq_true] at hall
+  have := hall s (by simpa using hin)
+  simp only [hd, bne_self_eq_false, Bool.false_or, List.all_eq_true] at this
+  simpa using this p hp
+
+theorem mem_patterns : ∀ (n : Nat) (p : List Bool), p.length = n → p ∈ patterns n
+  | 0, [], _ => by simp [patterns]
+  | n + 1, b :: p, h => by
+    simp only [patterns, List.mem_flatMap]
+    refine ⟨p, mem_patterns n p (by simpa using h), ?_⟩
+    cases b <;> simp
+
+/-- the code as it was (the flag is looked at only when `accept()` is `Pending`): with a connection ready at every poll the loop goes on
+    accepting for ever although the interrupt has been delivered completely -/
+theorem keeps_accepting_in_old_code :
+    let s := ((step true false init .handler).bind fun s => (step true false s .handler).bind fun s => step true false s .handler).getD init
+    s.hpc = .hDone ∧ (runLoad true false s (List.replicate 64 true)).ppc ≠ .returnedNone := by decide +kernel
 
 /-! ### WaitGroup: the counter is the number of live tokens, `poll` is Ready exactly at zero -/
 
